@@ -176,6 +176,8 @@ type RawOp struct {
 	Path    string            `json:"path,omitempty"`
 	Query   string            `json:"query,omitempty"`
 	UseSid  bool              `json:"useSid,omitempty"` // append &sid=<sid learned from the first open packet>
+	SidOf   string            `json:"sidOf,omitempty"`  // append &sid=<session id of that client alias> (live or closed)
+	Expect  string            `json:"expect,omitempty"` // generator's note for humans
 	Hdr     map[string]string `json:"hdr,omitempty"`
 	Body    []byte            `json:"body,omitempty"`
 	BodyGen int64             `json:"bodyGen,omitempty"`
